@@ -1,2 +1,223 @@
-import EventppVerif.Util.Removers
-import EventppVerif.Util.Wrappers
+import EventppVerif.Util.WrappersAux
+/-
+  Property C16 — CounterRemover and ConditionalRemover detach listeners exactly when promised.
+
+  Model (Util/Wrappers.lean): the wrappers are behaviour transformers `counterBeh w n inner` /
+  `condBeh w cond inner` for the callback-list machines of CL/Machine.lean: callback id `w` is the
+  wrapped listener, `inner` is what the wrapped listener and every other callback do.  The test of
+  the counter wrapper (`--triggerCount <= 0`: value tested, comparison, threshold) is the
+  regenerated `Gen.Remover.due` / `testsAfterDecrement`; the proofs unfold them, so they are
+  re-checked when the source changes.  The count is a 32-bit `int` (`dec32` wraps at `INT_MIN`).
+
+  The machine theorems are about the Spec machine `SCfg` (an invocation iterates over a snapshot
+  and skips entries that are no longer present); the pointer-level Model `MCfg` produces the same
+  trace (C02), which `C16_counter_bound_model` uses.  They quantify over every behaviour `inner`
+  whose programs are `Clean w lw`, every start configuration as described, every number of steps
+  — hence every interleaving with other listeners and every nesting depth.  All proofs are in
+  Util/WrappersAux.lean.
+
+  `Clean w lw p`: no command of the interaction tree `p`, whatever results the earlier ones
+  returned, registers callback id `w` again, enumerates (`forEachIf`) list `lw`, or copies, moves
+  or swaps list `lw`.  (The machines count an enumeration visit as a call — `nth`, `countCalls` —
+  although it does not run the wrapper; therefore enumerations of `lw` are outside these theorems.)
+-/
+namespace Evp.Wrap
+open Evp Evp.Gen.Remover
+
+/-! ### the test -/
+
+/-- **C16 (which call finds the test true).** For every trigger count `n` and every 0-based call
+    number `k` such that `k + 1` decrements of `n` do not pass `INT_MIN` (`k + 1 ≤ n - INT_MIN`;
+    this needs `INT_MIN < n` and covers every `k + 1 ≤ max(n,1)`, and in fact the first
+    `n + 2^31` calls): the regenerated test is true on call `k` iff `k + 1 ≥ max(n,1)` — the first
+    call that finds it true is call number `max(n,1)` (1-based), and every later call would too. -/
+theorem C16_due_iff (n : Int) (k : Nat) (hk : (k : Int) + 1 ≤ n - intMin) :
+    counterDue n k = true ↔ (k + 1 : Int) ≥ max n 1 :=
+  counterDue_iff n k hk
+
+/-- the same, in the form used below: for `INT_MIN < n`, every call before number `max(n,1)` finds
+    the test false and call number `max(n,1)` finds it true. -/
+theorem C16_due_first (n : Int) (hn : intMin < n) (k : Nat) :
+    (k + 1 < (max n 1).toNat → counterDue n k = false) ∧
+    (k + 1 = (max n 1).toNat → counterDue n k = true) :=
+  counterDue_first hn k
+
+/-- **Known defect, kept as a theorem.** With trigger count `INT_MIN` the first decrement wraps
+    (undefined behaviour in the source; two's-complement wrap in the model): the test is false on
+    each of the first `2^31 - 1` calls, so the listener is *not* removed on its first trigger
+    although `max(n,1) = 1`. -/
+theorem C16_counterexample_intmin :
+    counterDue intMin 0 = false ∧ (max intMin 1 = 1) ∧
+    (∀ k : Nat, (k : Int) < intMax → counterDue intMin k = false) :=
+  ⟨by decide, by decide, counterDue_intMin⟩
+
+/-- the same for the first calls, by evaluation of the regenerated test -/
+theorem C16_counterexample_intmin_small : ∀ k < 6, counterDue intMin k = false := by decide
+
+/-! ### the wrapper's program -/
+
+/-- **C16 (the wrapped listener runs whenever the wrapper is called).** For every call, the
+    wrapper's program is the wrapped listener's program `inner call nth`, preceded by exactly one
+    command `remove call.list call.h` (its own handle) iff it is an invocation of `w` whose test is
+    true.  Same for the conditional wrapper, whose test is `cond call.arg`: a pure function of
+    the trigger's argument, so it is evaluated on the trigger's argument, once per call. -/
+theorem C16_wrapper_calls_inner (w : Cb) (n : Int) (cond : Nat → Bool) (inner : Beh) (call : Call) (nth : Nat) :
+    (counterBeh w n inner call nth =
+      if call.cb = w ∧ call.enum = false ∧ counterDue n nth = true
+      then .op (.remove call.list call.h) (fun _ => inner call nth) else inner call nth) ∧
+    (condBeh w cond inner call nth =
+      if call.cb = w ∧ call.enum = false ∧ cond call.arg = true
+      then .op (.remove call.list call.h) (fun _ => inner call nth) else inner call nth) :=
+  ⟨rfl, rfl⟩
+
+/-- hence, for `INT_MIN < n` and an invocation of `w` that is call number `nth + 1`: before call
+    number `max(n,1)` the wrapper does nothing but run the listener; on call number `max(n,1)` it
+    first removes its own handle. -/
+theorem C16_counter_program (w : Cb) (n : Int) (hn : intMin < n) (inner : Beh) (call : Call) (nth : Nat)
+    (hcb : call.cb = w) (hen : call.enum = false) :
+    (nth + 1 < (max n 1).toNat → counterBeh w n inner call nth = inner call nth) ∧
+    (nth + 1 = (max n 1).toNat →
+      counterBeh w n inner call nth = .op (.remove call.list call.h) (fun _ => inner call nth)) :=
+  counter_program hn inner call nth hcb hen
+
+/-- for the conditional wrapper and an invocation of `w`: the call whose condition holds starts
+    with the self-removal, a call whose condition does not hold is just the listener. -/
+theorem C16_cond_program (w : Cb) (cond : Nat → Bool) (inner : Beh) (call : Call) (nth : Nat)
+    (hcb : call.cb = w) (hen : call.enum = false) :
+    (cond call.arg = false → condBeh w cond inner call nth = inner call nth) ∧
+    (cond call.arg = true →
+      condBeh w cond inner call nth = .op (.remove call.list call.h) (fun _ => inner call nth)) :=
+  cond_program cond inner call nth hcb hen
+
+/-- the regenerated facts about the order in the source: removal (when due) before the call of the
+    wrapped listener, one evaluation of the condition per call -/
+theorem C16_generated_flags : removeBeforeCall = true ∧ condEvaluatedOnce = true ∧ testsAfterDecrement = true :=
+  ⟨rfl, rfl, rfl⟩
+
+/-! ### a removed listener is never called -/
+
+/-- **C16 (removed ⇒ never called).** For every behaviour, configuration, list, remaining
+    snapshot, argument and stack: when the Spec machine continues a traversal it either calls an
+    entry of the snapshot that is present in the list *now* (and records that call), or none of
+    the remaining entries is present and the traversal finishes.  So once the wrapper has removed
+    its own handle no invocation — nested, outer or later — calls it again. -/
+theorem C16_removed_never_called (beh : Beh) (c : SCfg) (l : Nat) (snap : List Entry) (arg : Nat)
+    (honour : Bool) (below : List SFrame) :
+    (∃ e es, e ∈ snap ∧ (c.lists l).present e.id = true ∧
+      SCfg.seekCall beh c l snap arg honour below =
+        { c with
+          trace := .call ⟨l, e.id, e.cb, arg, honour⟩ :: c.trace
+          stack := .prog (beh ⟨l, e.id, e.cb, arg, honour⟩ (countCalls c.trace e.cb)) ::
+            .iter l es arg honour :: below }) ∨
+    ((∀ e ∈ snap, (c.lists l).present e.id = false) ∧
+      SCfg.seekCall beh c l snap arg honour below = c.deliver (MCfg.finishRes honour true) below) :=
+  seekCall_cases beh c l snap arg honour below
+
+/-- the same for whole steps: every step of the Spec machine records nothing, one result, or one
+    call; a recorded call is the call of a handle present in its list at that moment, the lists
+    are unchanged by that step and the program started is `beh` of that call. -/
+theorem C16_call_only_when_present (beh : Beh) (c c' : SCfg) (hs : SCfg.step beh c = some c') :
+    c'.trace = c.trace ∨ (∃ r, c'.trace = .res r :: c.trace) ∨
+    (∃ cl, c'.trace = .call cl :: c.trace ∧ (c.lists cl.list).present cl.h = true ∧ c'.lists = c.lists ∧
+      ∃ rest, c'.stack = .prog (beh cl (countCalls c.trace cl.cb)) :: rest) :=
+  step_call_present hs
+
+/-- the self-removal is effective: in a configuration where callback `w` is registered at most as
+    entry `⟨hw, w⟩` of list `lw` and handle `hw` is used by no other entry, executing
+    `remove lw hw` leaves `hw` not present in `lw`. -/
+theorem C16_self_removal_effective (w lw hw : Nat) (c : SCfg) (busy : Nat → Bool) (hfresh : hw < c.nextId)
+    (hent : ∀ l e, e ∈ c.lists l → (e.cb = w ∨ e.id = hw) → e.cb = w ∧ e.id = hw ∧ l = lw) :
+    ((c.apply busy (.remove lw hw)).1.lists lw).present hw = false :=
+  apply_remove_absent ⟨hfresh, hent⟩ busy
+
+/-! ### the global statements -/
+
+/-- **C16 (CounterRemover: at most `max(n,1)` calls, then detached).**
+    For every trigger count `n > INT_MIN`, every behaviour `inner` of the wrapped listener and of
+    all other callbacks with `Clean w lw` programs, every start configuration `c0` in which
+    callback `w` is registered at most as entry `⟨hw, w⟩` of list `lw` (and `hw` is an issued handle
+    used by no other entry), no traversal is running (the stack is one `Clean` program `p`) and `w`
+    has not been called yet, and every number `k` of steps of the Spec machine:
+    the wrapped listener has been called at most `max(n,1)` times, and if it has been called
+    `max(n,1)` times then its handle is no longer present in its list, or the top frame is the
+    wrapper's program about to execute `remove lw hw` (the one-step window between the recording of
+    call number `max(n,1)` and the removal).  By `C16_removed_never_called` it is then never called
+    again, whatever the other listeners do and however deeply invocations are nested. -/
+theorem C16_counter_bound (w lw hw : Nat) (n : Int) (hn : intMin < n) (inner : Beh)
+    (hin : ∀ call nth, Clean w lw (inner call nth)) (c0 : SCfg) (p : Prog)
+    (hstack : c0.stack = [.prog p]) (hp : Clean w lw p) (hfresh : hw < c0.nextId)
+    (hent : ∀ l e, e ∈ c0.lists l → (e.cb = w ∨ e.id = hw) → e.cb = w ∧ e.id = hw ∧ l = lw)
+    (hcount : countCalls c0.trace w = 0) (k : Nat) :
+    countCalls (SCfg.runN (counterBeh w n inner) k c0).1.trace w ≤ (max n 1).toNat ∧
+    (countCalls (SCfg.runN (counterBeh w n inner) k c0).1.trace w = (max n 1).toNat →
+      ((SCfg.runN (counterBeh w n inner) k c0).1.lists lw).present hw = false ∨
+      AboutToRemove lw hw (SCfg.runN (counterBeh w n inner) k c0).1.stack) :=
+  counter_bound hn hin hstack hp hfresh hent hcount k
+
+/-- the bound on the pointer-level Model: for a Model configuration related to `c0` by the C02
+    simulation and a run without generation-counter wrap (C19), the Model's trace has at most
+    `max(n,1)` calls of the wrapped listener. -/
+theorem C16_counter_bound_model (w lw hw : Nat) (n : Int) (hn : intMin < n) (inner : Beh)
+    (hin : ∀ call nth, Clean w lw (inner call nth)) (c0 : SCfg) (p : Prog)
+    (hstack : c0.stack = [.prog p]) (hp : Clean w lw p) (hfresh : hw < c0.nextId)
+    (hent : ∀ l e, e ∈ c0.lists l → (e.cb = w ∨ e.id = hw) → e.cb = w ∧ e.id = hw ∧ l = lw)
+    (hcount : countCalls c0.trace w = 0) (k : Nat) (m0 : MCfg) (hsim : Sim m0 c0)
+    (nowrap : (MCfg.runN (counterBeh w n inner) k m0).1.wraps = m0.wraps) :
+    countCalls (MCfg.runN (counterBeh w n inner) k m0).1.trace w ≤ (max n 1).toNat :=
+  counter_bound_model hn hin hstack hp hfresh hent hcount k hsim nowrap
+
+/-- **C16 (ConditionalRemover: called up to and including the first trigger whose condition
+    holds).**  Same quantification as `C16_counter_bound`, for every condition `cond`.  After every
+    number of steps (the trace is newest first, so `tr2` is what happened before `cl`):
+    every recorded call of `w` is an invocation of `⟨hw, w⟩` on `lw` before which no call of `w`
+    had an argument satisfying the condition; and if some recorded call of `w` has an argument
+    satisfying the condition, then `hw` is no longer present in `lw` or the top frame is the
+    wrapper's program about to execute `remove lw hw`. -/
+theorem C16_cond_bound (w lw hw : Nat) (cond : Nat → Bool) (inner : Beh)
+    (hin : ∀ call nth, Clean w lw (inner call nth)) (c0 : SCfg) (p : Prog)
+    (hstack : c0.stack = [.prog p]) (hp : Clean w lw p) (hfresh : hw < c0.nextId)
+    (hent : ∀ l e, e ∈ c0.lists l → (e.cb = w ∨ e.id = hw) → e.cb = w ∧ e.id = hw ∧ l = lw)
+    (hcount : countCalls c0.trace w = 0) (k : Nat) :
+    (∀ tr1 cl tr2, (SCfg.runN (condBeh w cond inner) k c0).1.trace = tr1 ++ .call cl :: tr2 → cl.cb = w →
+      cl.enum = false ∧ cl.list = lw ∧ cl.h = hw ∧
+      ∀ cl', Ev.call cl' ∈ tr2 → cl'.cb = w → cond cl'.arg = false) ∧
+    ((∃ cl, Ev.call cl ∈ (SCfg.runN (condBeh w cond inner) k c0).1.trace ∧ cl.cb = w ∧ cond cl.arg = true) →
+      ((SCfg.runN (condBeh w cond inner) k c0).1.lists lw).present hw = false ∨
+      AboutToRemove lw hw (SCfg.runN (condBeh w cond inner) k c0).1.stack) :=
+  cond_bound cond hin hstack hp hfresh hent hcount k
+
+/-! ### non-vacuity -/
+
+/-- A counted listener (callback 1, n = 2) and a plain one (callback 2) on list 0, invoked four
+    times: the counted one is called exactly twice, the run halts. -/
+example :
+    calls (SCfg.runN (counterBeh 1 2 innerPlain) 100 { stack := [.prog (withTwo (invokes [0, 0, 0, 0]))] }).1.trace
+      = [(1, 0), (2, 0), (1, 0), (2, 0), (2, 0), (2, 0)] ∧
+    (SCfg.runN (counterBeh 1 2 innerPlain) 100 { stack := [.prog (withTwo (invokes [0, 0, 0, 0]))] }).2 = true := by
+  decide +kernel
+
+/-- Nested: the counted listener (n = 2) re-invokes its list from inside; it is called twice in
+    total (the second time from inside the first), callback 2 at every nesting level. -/
+example :
+    calls (SCfg.runN (counterBeh 1 2 innerNested) 100 { stack := [.prog (withTwo (invokes [0, 0]))] }).1.trace
+      = [(1, 0), (1, 0), (2, 0), (2, 0), (2, 0), (2, 0)] ∧
+    (SCfg.runN (counterBeh 1 2 innerNested) 100 { stack := [.prog (withTwo (invokes [0, 0]))] }).2 = true := by
+  decide +kernel
+
+/-- Conditional (`arg == 5`), triggers 1, 5, 7: called for 1 and 5 only. -/
+example :
+    calls (SCfg.runN (condBeh 1 (fun a => a == 5) innerPlain) 100
+      { stack := [.prog (withTwo (invokes [1, 5, 7]))] }).1.trace
+      = [(1, 1), (2, 1), (1, 5), (2, 5), (2, 7)] := by
+  decide +kernel
+
+/-- The hypotheses of `C16_counter_bound` are satisfiable: for the nested behaviour, the
+    configuration `twoCfg args` (entries `⟨0,1⟩`, `⟨1,2⟩` on list 0, a program invoking it for every
+    argument of `args`), every `args` and every number of steps, callback 1 is called at most
+    twice. -/
+example (args : List Nat) (k : Nat) :
+    countCalls (SCfg.runN (counterBeh 1 2 innerNested) k (twoCfg args)).1.trace 1 ≤ 2 :=
+  (C16_counter_bound 1 0 0 2 (by decide) innerNested innerNested_clean (twoCfg args) _ rfl
+    (invokes_clean 1 0 args) (by show (0 : Nat) < 2; decide) (twoCfg_ent args) rfl k).1
+
+end Evp.Wrap
